@@ -208,8 +208,12 @@ func (ex *Exec) ghostSort(name string) string {
 	switch name {
 	case "wrN", "wrClock":
 		return sInt
-	case "ioFail":
+	case "ioFail", "tcpDialed":
 		return sBool
+	case "isOpen":
+		return arrSort(sInt, sBool)
+	case "closeN", "connKind":
+		return arrSort(sInt, sInt)
 	}
 	return ""
 }
